@@ -975,10 +975,43 @@ func (g *G) multiAssign(depth int) []ts.Stmt {
 		if minOK {
 			vals := make([]ts.Expr, k)
 			for i := range names {
-				vals[i] = ts.VarRef{Name: names[(i+1)%k], Ty: ty}
+				var v ts.Expr = ts.VarRef{Name: names[(i+1)%k], Ty: ty}
+				// values that an implementation may pass through lazily: parenthesised variables
+				switch g.pick("swap-form", 40, 40, 20) {
+				case 1:
+					v = ts.Group{E: v}
+					g.tag("swap-grouped")
+				case 2:
+					v = ts.Group{E: ts.Group{E: v}}
+					g.tag("swap-grouped")
+				}
+				vals[i] = v
 			}
 			g.tag("swap")
 			return []ts.Stmt{ts.Assign{Names: names, Vals: vals}}
+		}
+	}
+	// n, s = n + 1, itoa(n): the right-hand sides read the OLD values of the targets
+	if ints, strs := byTy[ts.TInt], byTy[ts.TString]; len(ints) > 0 && len(strs) > 0 && g.chance("inc-and-itoa", 35) {
+		n := ints[g.intn("ia-int", 0, len(ints)-1)]
+		var sv *varInfo
+		for _, c := range strs {
+			if c.MinLen <= 1 {
+				sv = c
+			}
+		}
+		if sv != nil {
+			nref := ts.VarRef{Name: n.Name, Ty: ts.TInt}
+			inc := ts.Bin{Op: "+", Ty: ts.TInt, L: nref, R: ts.IntLit{V: 1}}
+			var conv ts.Expr = ts.Itoa{X: nref}
+			if g.chance("ia-group", 40) {
+				conv = ts.Itoa{X: ts.Group{E: nref}}
+			}
+			g.tag("multi-assign-inc-and-itoa")
+			if g.chance("ia-order", 50) {
+				return []ts.Stmt{ts.Assign{Names: []string{n.Name, sv.Name}, Vals: []ts.Expr{inc, conv}}}
+			}
+			return []ts.Stmt{ts.Assign{Names: []string{sv.Name, n.Name}, Vals: []ts.Expr{conv, inc}}}
 		}
 	}
 	if len(ws) < 2 {
@@ -1379,7 +1412,10 @@ func (g *G) copyStmt() []ts.Stmt {
 	}
 	cp := ts.Copy{Dst: dstRef, Src: ts.VarRef{Name: src.Name, Ty: src.Ty}}
 	g.tag("copy")
-	if g.chance("copy-print", 50) {
+	if g.chance("copy-bare", 25) {
+		out = append(out, ts.ExprStmt{E: cp})
+		g.tag("copy-as-statement")
+	} else if g.chance("copy-print", 50) {
 		out = append(out, ts.Print{Args: []ts.Expr{cp}})
 	} else {
 		cn := g.freshName()
